@@ -619,6 +619,9 @@ func genCfg(r *Rng) signCfg {
 	if r.Intn(10) == 0 {
 		c.ttl = uint32(r.Next())
 	}
+	if r.Intn(8) == 0 {
+		c.class = []uint16{dns.ClassINET, 254, 0, uint16(r.Next())}[r.Intn(4)] // the digest covers whatever class the record has
+	}
 	return c
 }
 
@@ -863,6 +866,19 @@ func oracleSigned(r *Rng, m *dns.Msg, c signCfg, ks keyStore, allBits bool) ([]b
 	fieldAlter("Fudge+1", func(t *dns.TSIG) { t.Fudge++ })
 	fieldAlter("OrigId", func(t *dns.TSIG) { t.OrigId ^= 1 })
 	if !c.timers {
+		st["fields_checked"]++
+		var pm dns.Msg
+		if pm.Unpack(out) == nil && pm.IsTsig() != nil {
+			pm.IsTsig().Hdr.Class ^= 1 << uint(r.Intn(16))
+			pm.Compress = false
+			if b, e := pm.Pack(); e == nil {
+				if got := protectVerify(ks, b, c.rm, c.timers, ts); got == "ok:" || got == "panic" {
+					in2 := in
+					in2.Detail, in2.Signed = "CLASS of the TSIG record", Hx(b)
+					Viol("C11/Verify/tsig-class-not-covered", "TSIG CLASS re-encoded with another value and the message still verifies: "+got, in2)
+				}
+			}
+		}
 		fieldAlter("Error", func(t *dns.TSIG) { t.Error ^= 1 })
 		fieldAlter("TTL", func(t *dns.TSIG) { t.Hdr.Ttl ^= 1 })
 		fieldAlter("OtherData", func(t *dns.TSIG) { t.OtherData += "00"; t.OtherLen++ })
@@ -1177,8 +1193,8 @@ func boundaryCases(r *Rng, ks keyStore) {
 	lab := func(n int, c byte) []byte { return append([]byte{byte(n)}, bytes.Repeat([]byte{c}, n)...) }
 	for _, n := range []int{1, 62, 63} {
 		emitName(append(lab(n, 'a'), 0), 0)
-		emitName(lab(n, 'a'), 0)             // no terminator
-		emitName(lab(n, 'a')[:n], 0)         // label cut short
+		emitName(lab(n, 'a'), 0)     // no terminator
+		emitName(lab(n, 'a')[:n], 0) // label cut short
 	}
 	emitName([]byte{64, 'a'}, 0)  // reserved 0x40
 	emitName([]byte{128, 'a'}, 0) // reserved 0x80
@@ -1201,8 +1217,8 @@ func boundaryCases(r *Rng, ks keyStore) {
 		b = append(b, 1, 'z', 0)
 		emitName(b, 0)
 	}
-	emitName([]byte{0xC0, 0}, 0)           // self loop
-	emitName([]byte{0xC0, 9, 0}, 0)        // pointer past the end
+	emitName([]byte{0xC0, 0}, 0)                       // self loop
+	emitName([]byte{0xC0, 9, 0}, 0)                    // pointer past the end
 	emitName([]byte{1, 'a', 0xC0, 5, 0, 1, 'b', 0}, 0) // forward pointer
 	emitName([]byte{0, 1, 'a', 0xC0, 0}, 1)            // backward pointer, offset after first pointer
 	for i := 0; i < 40; i++ {
@@ -1226,18 +1242,18 @@ func boundaryCases(r *Rng, ks keyStore) {
 	for n := 0; n <= len(full); n++ { // every truncation
 		emitStrip(full[:n])
 	}
-	emitStrip(craft(7, 0, 1, 0, 0, 0, q))          // ARCOUNT 0
-	emitStrip(craft(7, 9, 1, 0, 0, 1, q, tsigRR))  // NOTAUTH
+	emitStrip(craft(7, 0, 1, 0, 0, 0, q))         // ARCOUNT 0
+	emitStrip(craft(7, 9, 1, 0, 0, 1, q, tsigRR)) // NOTAUTH
 	emitStrip(craft(7, 0x8189, 1, 0, 0, 1, q, tsigRR))
 	emitStrip(craft(7, 8, 1, 0, 0, 1, q, tsigRR))
 	emitStrip(craft(7, 10, 1, 0, 0, 1, q, tsigRR))
-	emitStrip(craft(7, 0, 2, 0, 0, 1, q, tsigRR))  // QDCOUNT lies
-	emitStrip(craft(7, 0, 1, 3, 2, 1, q, tsigRR))  // TSIG met in the answer loop
+	emitStrip(craft(7, 0, 2, 0, 0, 1, q, tsigRR)) // QDCOUNT lies
+	emitStrip(craft(7, 0, 1, 3, 2, 1, q, tsigRR)) // TSIG met in the answer loop
 	emitStrip(craft(7, 0, 1, 0, 0, 65535, q, tsigRR))
 	emitStrip(craft(7, 0, 1, 0, 0, 2, q, tsigRR, r.Bytes(5))) // trailing octets never read
-	emitStrip(craft(7, 0, 1, 0, 0, 2, q))                      // counts lie, no records at all
+	emitStrip(craft(7, 0, 1, 0, 0, 2, q))                     // counts lie, no records at all
 	emitStrip(craft(7, 0, 1, 0, 0, 65535, q))
-	emitStrip(craft(7, 0, 1, 0, 0, 1, nameWire("example.org.")))       // question stops after the name
+	emitStrip(craft(7, 0, 1, 0, 0, 1, nameWire("example.org.")))               // question stops after the name
 	emitStrip(craft(7, 0, 1, 0, 0, 1, nameWire("example.org."), []byte{0, 1})) // after the type
 	emitStrip(craft(7, 0, 1, 0, 0, 1, nameWire("example.org."), []byte{0}))
 	emitStrip(craft(7, 0, 1, 0, 0, 1, nameWire("example.org."), []byte{0, 1, 0}))
@@ -1253,7 +1269,7 @@ func boundaryCases(r *Rng, ks keyStore) {
 		emitStrip(craft(7, 0, 1, 0, 1, 1, q, rr, tsigRR))
 		emitStrip(craft(7, 0, 1, 0, 0, 2, q, rr, tsigRR))
 		emitStrip(craft(7, 0, 1, 0, 0, 2, q, tsigRR, rr)) // TSIG not last: the loop stops at it
-		emitStrip(craft(7, 0, 1, 0, 0, 1, q, rr))          // additional section without TSIG
+		emitStrip(craft(7, 0, 1, 0, 0, 1, q, rr))         // additional section without TSIG
 	}
 	// TSIG RDATA cut after every octet, RDLENGTH adjusted (the lenient field exits), and RDLENGTH off by one
 	other := rawTsigRdata(algw, 1700000000, 300, r.Bytes(20), 7, 18, r.Bytes(6))
